@@ -216,6 +216,25 @@ func c06r1(p *Program, r *Report) {
 	if nreg == 0 {
 		r.Unresolved("no exit of exec is dominated by a successful addCall error check")
 	}
+	// a call that can close the connection from inside exec (handleTimeout -> closeWithError) delivers an error to
+	// every registered call and waits on each call's timeout channel: exec's own call must already be marked
+	// finished (response received or close(call.timeout)), or closeWithError blocks on the very request that runs it
+	info := g.Info
+	for _, c := range callsIn(fi.Decl.Body) {
+		name := calleeName(info, c)
+		if name != "(*Conn).handleTimeout" && name != "(*Conn).closeWithError" {
+			continue
+		}
+		if _, inLit := p.enclosing(c, fi.Decl, func(n ast.Node) bool { _, is := n.(*ast.FuncLit); return is }).(*ast.FuncLit); inLit {
+			continue
+		}
+		st, ok := ef.Sol.Before(p.stmtOf(c, fi))
+		if !ok || !st.Must["registered"] {
+			continue
+		}
+		r.Check(st.Must["done"], c, "(*Conn).exec calls "+name+" only after its own call stopped listening", "close(call.timeout) or a received response precedes it on every path",
+			name+" can close the connection while exec's own call is still registered with its timeout channel open and nobody reading call.resp: closeWithError blocks forever delivering the error to this call, the request never returns and the connection is never torn down")
+	}
 }
 
 func c06r2(p *Program, r *Report) {
